@@ -6,4 +6,4 @@ import (
 	"verif/internal/harness"
 )
 
-func TestProps(t *testing.T) { harness.Main(t, "C13", Retry) }
+func TestProps(t *testing.T) { harness.Main(t, "C13", Retry, Shared) }
